@@ -7,5 +7,6 @@ CONSTANTS
   Seed = 1
   RandCases <- cRand
   CodeFlags <- cFlags
+  PortEvery = 6
 INVARIANTS CheckCase
 CHECK_DEADLOCK FALSE
